@@ -23,6 +23,7 @@ func main() {
 	case "corr":
 		// one P: a buffer put back into a sync.Pool is the one the next Get returns, on this or a second goroutine
 		runtime.GOMAXPROCS(1)
+		mineRepo()
 		corr.Main(spec(), os.Args[2:])
 	default:
 		os.Exit(2)
